@@ -441,6 +441,27 @@ pub fn gen_symver(rng: &mut Rng, n: usize, thorough: bool) -> Vec<Case> {
             ann,
         ));
         // the record iterators stand-alone on the same bytes
+        // declared counts smaller (and larger) than the linked chain: the count must bound the yield
+        if !corrupt {
+            for c in [0usize, 1, m.needs.len().saturating_sub(1), m.needs.len() + 2] {
+                out.push((format!("verit need {} {} {} 0 {}", le as u8, cls(is64), c, hex(&needb)), "-".into()));
+            }
+            for c in [0usize, 1, m.defs.len().saturating_sub(1), m.defs.len() + 2] {
+                out.push((format!("verit def {} {} {} 0 {}", le as u8, cls(is64), c, hex(&defb)), "-".into()));
+            }
+            if !m.needs.is_empty() && !m.needs[0].auxs.is_empty() {
+                let first_aux = if interleaved { (16 + gap) * m.needs.len() } else { 16 + gap };
+                for c in [0usize, 1, m.needs[0].auxs.len().saturating_sub(1), m.needs[0].auxs.len() + 2] {
+                    out.push((format!("verit needaux {} {} {} {} {}", le as u8, cls(is64), c, first_aux, hex(&needb)), "-".into()));
+                }
+            }
+            if !m.defs.is_empty() && !m.defs[0].names.is_empty() {
+                let first_aux = if interleaved { (20 + gap) * m.defs.len() } else { 20 + gap };
+                for c in [0usize, 1, m.defs[0].names.len().saturating_sub(1), m.defs[0].names.len() + 2] {
+                    out.push((format!("verit defaux {} {} {} {} {}", le as u8, cls(is64), c, first_aux, hex(&defb)), "-".into()));
+                }
+            }
+        }
         out.push((format!("verit need {} {} {} 0 {}", le as u8, cls(is64), if has_needs { needcnt.clone() } else { "3".into() }, hex(&needb)), "-".into()));
         out.push((format!("verit def {} {} {} 0 {}", le as u8, cls(is64), if has_defs { defcnt.clone() } else { "3".into() }, hex(&defb)), "-".into()));
     }
